@@ -33,11 +33,18 @@ type funcInfo struct {
 }
 
 type pkgInfo struct {
-	dir   string // relative to repo root, e.g. weed/storage/needle
-	name  string // last path element
-	types map[string]*ast.TypeSpec
-	tfile map[string]*fileInfo
-	funcs map[string]*funcInfo // "Name" or "Recv.Name"
+	dir    string // relative to repo root, e.g. weed/storage/needle
+	name   string // last path element
+	types  map[string]*ast.TypeSpec
+	tfile  map[string]*fileInfo
+	funcs  map[string]*funcInfo // "Name" or "Recv.Name"
+	consts map[string]*constDecl
+}
+
+type constDecl struct {
+	value ast.Expr
+	typ   ast.Expr
+	file  *fileInfo
 }
 
 type loader struct {
@@ -78,7 +85,7 @@ func (l *loader) load(dir string) (*pkgInfo, error) {
 	ctx.GOOS, ctx.GOARCH = "linux", "amd64"
 	ctx.CgoEnabled = false
 	ctx.BuildTags = l.tags
-	p := &pkgInfo{dir: dir, name: filepath.Base(dir), types: map[string]*ast.TypeSpec{}, tfile: map[string]*fileInfo{}, funcs: map[string]*funcInfo{}}
+	p := &pkgInfo{dir: dir, name: filepath.Base(dir), types: map[string]*ast.TypeSpec{}, tfile: map[string]*fileInfo{}, funcs: map[string]*funcInfo{}, consts: map[string]*constDecl{}}
 	names := []string{}
 	for _, e := range ents {
 		n := e.Name()
@@ -121,6 +128,18 @@ func (l *loader) load(dir string) (*pkgInfo, error) {
 		for _, d := range f.Decls {
 			switch x := d.(type) {
 			case *ast.GenDecl:
+				if x.Tok == token.CONST {
+					for _, sp := range x.Specs {
+						vs := sp.(*ast.ValueSpec)
+						// only explicit `name = expr` forms (no iota / implicit repetition)
+						if len(vs.Values) != len(vs.Names) {
+							continue
+						}
+						for i, n := range vs.Names {
+							p.consts[n.Name] = &constDecl{value: vs.Values[i], typ: vs.Type, file: fi}
+						}
+					}
+				}
 				if x.Tok == token.TYPE {
 					for _, s := range x.Specs {
 						ts := s.(*ast.TypeSpec)
